@@ -655,7 +655,18 @@ def parse_label(label: str):
     return name, vals
 
 
-def diff_files(a: dict, b: dict, limit: int = 3) -> list[str]:
+def _eq_mod_unknown(a, b) -> bool:
+    """Equality where a digest the implementation-side projector could not resolve (UNKNOWN) matches anything."""
+    if b == UNKNOWN:
+        return True
+    if isinstance(a, dict) and isinstance(b, dict):
+        return set(a) == set(b) and all(_eq_mod_unknown(a[k], b[k]) for k in a)
+    if isinstance(a, (list, tuple)) and isinstance(b, (list, tuple)):
+        return len(a) == len(b) and all(_eq_mod_unknown(x, y) for x, y in zip(a, b))
+    return a == b
+
+
+def diff_files(a: dict, b: dict, limit: int = 3, modulo_unknown: bool = False) -> list[str]:
     """Human-readable differences between two canonical files maps (a: specification, b: implementation)."""
     out = []
     for p in sorted(set(a) | set(b)):
@@ -663,6 +674,8 @@ def diff_files(a: dict, b: dict, limit: int = 3) -> list[str]:
             out.append(f"only in implementation: {'/'.join(p)} = {json.dumps(b[p])[:200]}")
         elif p not in b:
             out.append(f"only in specification: {'/'.join(p)} = {json.dumps(a[p])[:200]}")
+        elif modulo_unknown and _eq_mod_unknown(_norm(a[p]), _norm(b[p])):
+            continue
         elif _norm(a[p]) != _norm(b[p]):
             out.append(f"differs {'/'.join(p)}: spec {json.dumps(a[p])[:300]} impl {json.dumps(b[p])[:300]}")
         if len(out) >= limit:
